@@ -606,6 +606,7 @@ func (pr *ProtoArray) OnPrune(ctx context.Context, anchorRoot Root, anchorSlot S
 	var pruned []prunedNode
 	for i := pr.indexOffset; i < anchorIndex; i++ {
 		node := &pr.nodes[j]
+		j++
 		if pr.sink != nil {
 			canonical := node.BestDescendant == headIndex
 			pruned = append(pruned, prunedNode{canonical, node})
